@@ -45,22 +45,25 @@ from vlib import rstread
 ID = 'C12'
 LEVEL = 'exploration'
 RULE = (
-    'case = rendering (82 %) or TableTemplate chain (18 %). Rendering: result kind in {equal, '
+    'case = rendering (~83 %) or TableTemplate chain (~17 %). Rendering: result kind in {equal, '
     'approx-equal, Student, Bonferroni(Student), Holm-Bonferroni(Student)} on datasets of shape () '
     'to 3-D (1-4 cells per dimension, unit dimensions included) with edge / centre / no bins, 1-3 '
     'compared datasets, reference values of many magnitudes and a failing-bin pattern per dataset '
-    'imposed by construction (none / all / one bin / mixed), 6 % of them with inconsistent bins '
-    '(failed evaluation); or metadata (2-3 samples, 1-5 keys, missing keys, equal or different '
+    'imposed by construction (none / all / one bin / mixed; shifts of 0, 1e-9 relative, 0.5, 3, 20 '
+    'or 1000 combined sigma; a third of the (Holm-)Bonferroni cases use 3-sigma failures so that '
+    'the nested Student result is false under a true correction), 6 % of them with inconsistent '
+    'bins (failed evaluation); or metadata (2-3 samples, 1-5 keys, missing keys, equal or different '
     'values); or statistics of tasks / tests / tests by 1-3 labels over 1-6 tasks with 0-3 real '
-    'test results each (by-label requests naming an unused label give a failed evaluation); x '
-    'verbosity SILENT..DEVELOPMENT x representer Table / FullTable / Full (and Plot / Empty for the '
-    'one-directional clause). Oracle: docutils doctree of Rst.format_result; mark = hl inline or '
+    'test results each, dense or sparse labels (by-label requests naming an unused label give a '
+    'failed evaluation); x verbosity SILENT..DEVELOPMENT x representer Table / FullTable / Full '
+    '(and Plot / Empty for the one-directional clause). Oracle: docutils doctree of '
+    'Rst.format_result compared with the result object read before rendering; mark = hl inline or '
     'the word KO. Chain: 1-3 initial tables (2-4 scalar or 1-D columns of float / int / str / bool, '
     'explicit or default highlights) and 1-6 operations slice (any step) / integer index / copy / '
     'join (method or function), every produced table rendered with RstTable and compared with a '
-    'list-of-rows model. non-trivial = a false result with a mixed pattern (some bins / keys / '
-    'groups / items fail, some pass) rendered with at least one table, or a chain with a slice '
-    'whose table was rendered; distinct = structural hash of the case')
+    'list-of-rows model, all live tables re-rendered at the end. non-trivial = a false result with '
+    'a mixed pattern (some bins / keys / groups / items fail, some pass) rendered with at least one '
+    'table, or a chain with a slice whose table was rendered; distinct = structural hash of the case')
 ASSUMPTIONS = [
     'dataset, test, sample, task and label names / values are identifier-like words without reST '
     'markup, never empty and never the word KO (the property quantifies over kinds, shapes, '
